@@ -45,6 +45,26 @@ INFO = {
  "C17b": ("message_reader.go readMessageV2: remain decreased by the whole batch length instead of by what was read", "Conn.ReadBatch on a compressed v2 batch, connection lost inside the compressed payload where the codec sees a clean end of stream: batch ends with io.EOF, connection kept, offset may skip records"),
  "C18b": ("sasl/scram (*session).Next: reports completion whenever the conversation is done, dropping the final step's error", "SCRAM whose last step fails in-band (invalid proof reported with error code 0, malformed or forged server-final message): the connection is used as authenticated"),
  "C20b": ("protocol/decode.go checkArrayLength: signed comparison after converting the wire value to int", "flexible versions: a compact array length of 2^63+1 or more becomes negative and reaches makeArray"),
+ "C01c": ("writer.go (*Writer).WriteMessages: the error flag is overwritten per batch instead of accumulated", "one synchronous call split into several batches with different outcomes, a successful batch waited for last (map order): nil returned although a batch failed"),
+ "C02c": ("batch.go (*Batch).close: the offset is copied back to the Conn only when the batch ended cleanly", "QueueCapacity smaller than one response and a consumer pausing longer than MaxWait: the batch ends with RequestTimedOut and the whole response is fetched and delivered again"),
+ "C03c": ("consumergroup.go (*Generation).CommitOffsets: one scratch slice shared by all topics of the request", "a group subscribed to two topics and one OffsetCommit covering both: both topics carry the partitions/offsets of the last one"),
+ "C04c": ("protocol/buffer.go (*page).WriteAt: returns len(b) instead of the bytes that fit in the page", "a frame larger than 64 KiB in which a field patched after the content (batch length, crc, record-set size ...) straddles a page boundary"),
+ "C05c": ("read.go readVarInt: accumulator re-initialised inside the refill loop", "a multi-byte varint of a v2 record cut by a bufio refill (compressed batches read through a 16-byte buffer; keys of 8, 9, 24, 25 bytes with 100-byte values)"),
+ "C06c": ("transport.go: one response channel per pooled connection instead of one per request", "a RoundTrip cancelled while in flight, the broker answering late: the next call on that connection receives the abandoned call's response"),
+ "C07c": ("writer.go (*batchQueue).Get: swap-remove of the head", "three or more batches of one partition queued while the partition writer is busy: they are sent in the wrong order"),
+ "C08c": ("writer.go (*writeBatch).full: > instead of >= on the byte limit", "a batch whose messages add up to exactly BatchBytes stays open until the timer fires"),
+ "C09c": ("consumergroup.go (*Generation).close: returns at once when the generation is already marked closed", "a generation ended by one of its own functions while another is still winding down, then Close or Next: Close returns / Next hands out a generation while the old function still runs"),
+ "C10c": ("writer.go (*Writer).stats: unsynchronised fast-path read before once.Do", "a Writer built as a struct literal, Stats() concurrent with the first WriteMessages"),
+ "C11c": ("conn.go (*Conn).loadVersions: the version list that came with a broker error is cached", "the implicit ApiVersions exchange of the first versioned operation answered with an error and an empty list: every later versioned operation on the Conn fails"),
+ "C12c": ("transport.go (*connPool).discover: compares the error with the per-request deadline context", "one Metadata request unanswered for a TTL: the refresh goroutine exits for good and later leader moves are never followed"),
+ "C13c": ("balancer.go murmur2: third trailing byte masked with 0x7f", "keys of length 3 mod 4 whose last byte is >= 0x80"),
+ "C14c": ("groupbalancer.go findPartitions: stops at the first partition of another topic", "a partition listing in which a subscribed topic's partitions are not contiguous"),
+ "C15c": ("consumergroup.go partitionWatcher: UnknownTopicOrPartition no longer counts as a change", "the watched topic deleted while the generation lives: the generation never ends"),
+ "C16c": ("compress/zstd (*writer).Close: the encoder is returned to the pool before the error check", "a zstd writer whose Close failed closed a second time, then two writers open at once: they share one encoder"),
+ "C17c": ("transport.go (*conn).run: the connection is released to the idle list before the result is examined", "any cut produce response followed by another request to that broker: the dead connection is reused and the call blocks past its deadline"),
+ "C18c": ("transport.go saslAuthenticateRoundTrip: ErrorCode > 0 instead of != 0", "PLAIN over the Transport with handshake v1 and the broker refusing with error code -1: requests are sent on the unauthenticated connection"),
+ "C19c": ("listoffset.go (*Client).ListOffsets: the partition error is assigned unconditionally when folding entries", "one call asking two or more offsets of a partition, one sub-request failing and a sibling succeeding: the error is reset to nil"),
+ "C20c": ("protocol/decode.go (*decoder).Read guard relaxed to remain == 0 (with a frame-size check added at the entry points)", "a fetch response whose v2 batch length or v0/v1 message size has the sign bit set: slice bounds panic on a Transport goroutine"),
  "C20": ("protocol/decode.go (*decoder).read: the n < 0 guard is dropped", "flexible versions only: a compact string/bytes length or tagged-field size of 2^63 or more becomes a negative int and reaches make()"),
 }
 
